@@ -103,3 +103,21 @@ func init() {
 		}
 	}
 }
+
+func init() {
+	dumpers["whyformat"] = func(c *Ctx) {
+		reach := c.formatterReach()
+		target := os.Getenv("WHY")
+		for fn := range reach {
+			node := c.CG().g.Nodes[fn]
+			if node == nil {
+				continue
+			}
+			for _, e := range node.Out {
+				if ssaFuncName(e.Callee.Func) == target {
+					fmt.Printf("%s -> %s at %s (%s)\n", ssaFuncName(fn), target, c.Pos(e.Pos()), e.Description())
+				}
+			}
+		}
+	}
+}
